@@ -136,7 +136,7 @@ def run_entry(args):
         for na, idxs in sorted(groups.items()):
             if len(idxs) < 4:
                 continue
-            while nadded < na:
+            while nadded < na and nadded < len(ex.assumes):
                 s.add(ex.assumes[nadded])
                 nadded += 1
             s.push()
@@ -152,7 +152,7 @@ def run_entry(args):
         s2 = z3.Solver()
         nadded2 = 0
         for i, ob in enumerate(ex.obligations):
-            while nadded2 < ob.nassume:
+            while nadded2 < ob.nassume and nadded2 < len(ex.assumes):
                 s2.add(ex.assumes[nadded2])
                 nadded2 += 1
             rec = {"kind": ob.kind, "name": ob.name, "pos": ob.pos, "fn": ob.fn}
